@@ -14,6 +14,7 @@
 #      along with this program.  If not, see <https://www.gnu.org/licenses/>.from typing import Dict, List
 
 """The main services for Deep."""
+import threading
 from typing import Dict, List
 
 import deep.logging
@@ -44,6 +45,9 @@ class Deep:
         :param config: the config to use.
         """
         self.started = False
+        # start and shutdown are one step each: a second start (or a shutdown) that arrives while the first is still in
+        # progress waits for it, it does not run alongside
+        self._lifecycle_lock = threading.RLock()
         self.config = config
         self.grpc = GRPCService(self.config)
         self.task_handler = TaskHandler()
@@ -54,6 +58,10 @@ class Deep:
 
     def start(self):
         """Start Deep."""
+        with self._lifecycle_lock:
+            self.__start()
+
+    def __start(self):
         if self.started:
             return
         self.config.plugins = load_plugins(self.config, self.config.PLUGINS)
@@ -79,6 +87,10 @@ class Deep:
 
     def shutdown(self):
         """Shutdown deep."""
+        with self._lifecycle_lock:
+            self.__shutdown()
+
+    def __shutdown(self):
         if not self.started:
             return
         self.trigger_handler.shutdown()
